@@ -23,7 +23,7 @@
 From Coq Require Import List NArith Bool Arith Strings.String.
 From Atlas Require Import Base.Bytes Dir.DirModel Dir.DirProofs Dir.DirDetect Dir.DirEdits Dir.DirGlob
   Dir.DirRefuted Dir.DirWriters Dir.DirExact Dir.DirReason Dir.DirToyHash
-  Dir.DirConsumersModel Dir.DirConsumers Dir.DirFormatsModel Dir.DirFormats.
+  Dir.DirConsumersModel Dir.DirConsumers Dir.DirFormatsModel Dir.DirFormats Dir.DirReasonIgn.
 Import ListNotations.
 
 Section C06.
@@ -460,6 +460,78 @@ Theorem C06_archive_roundtrip_flyway_refuted :
      collision HS (hash_inputs HS wf_d ++ hash_inputs HS wf_d')).
 Proof. exact (archive_flyway_refuted HS HS_shape). Qed.
 
+(** * Round 5: what Validate reports when the directory holds sum-ignored files, and for compound edits
+
+    Content edit of a hashed file at any position of a directory with
+    sum-ignored files anywhere (in front of it, behind it): the error names
+    that file with ReasonEdited; line and total count the *hashed* files
+    ([hashed_names]), the position the sum lines in front ([possum]). *)
+Theorem C06_reason_edited_ignored :
+  forall (a : list file) (n c c' : bytes) (b : list file),
+  let d := a ++ (n, c) :: b in let d' := a ++ (n, c') :: b in
+  names_ok d = true -> names_wf d = true -> NoDup (map fst d) ->
+  sum_ignored c = false -> sum_ignored c' = false -> c' <> c ->
+  validate HS d' (Some (marshal HS (newhash HS d)))
+    = VChecksum (List.length (hashed_names a) + 2) (List.length (hashed_names d))
+                (48 + possum (newhash HS a)) n Edited \/
+  collision HS (hash_inputs HS d ++ hash_inputs HS d').
+Proof. exact (reason_edited_ign HS HS_shape). Qed.
+
+(** ANY edit -- compound, any number of files, with or without sum-ignored
+    files: if [P] is a common prefix of the sum lines written for [d] and of
+    the lines recomputed for [d'], and the next written line [h] is not the
+    next recomputed one, then Validate either accepts (the header sums agree:
+    by C06_detect only with equal covered streams or a collision) or reports
+    exactly [classify] of that first differing line: line |P|+2, position
+    48 + possum P, and file/reason = h's file Removed if its name is gone,
+    Edited if it is still at index |P|, else the file now at index |P| Added. *)
+Theorem C06_reason_first_difference :
+  forall (d d' : list file) (P : list entry) (h : entry) (R R' : list entry),
+  names_ok d = true ->
+  newhash HS d = P ++ h :: R -> newhash HS d' = P ++ R' -> hd_error R' <> Some h ->
+  validate HS d' (Some (marshal HS (newhash HS d))) = VOk \/
+  validate HS d' (Some (marshal HS (newhash HS d)))
+    = classify (newhash HS d') h (List.length P) (48 + possum P) (List.length (newhash HS d)).
+Proof. exact (reason_first_difference HS HS_shape). Qed.
+
+(** ... and when every written line still matches but the directory has more
+    hashed files: the first extra file, ReasonAdded, line total+2. *)
+Theorem C06_reason_trailing_added :
+  forall (d d' : list file) (x : entry) (R' : list entry),
+  names_ok d = true ->
+  newhash HS d' = newhash HS d ++ x :: R' ->
+  validate HS d' (Some (marshal HS (newhash HS d))) = VOk \/
+  validate HS d' (Some (marshal HS (newhash HS d)))
+    = VChecksum (List.length (newhash HS d) + 2) (List.length (newhash HS d))
+                (48 + possum (newhash HS d)) (fst x) Added.
+Proof. exact (reason_trailing_added HS HS_shape). Qed.
+
+(** * Round 5: the path of every PreRunE up to Validate (dirFormatBC, cmdmigrate.Dir / DirURL, checkDir)
+
+    [check_dir_url parse_ok scheme fmt flag is_dir t]: [parse_ok] = url.Parse
+    succeeded, [fmt] = the URL's format parameter if present, [flag] =
+    --dir-format.  Validate is reached only when the URL parsed, the scheme
+    is mem or file, the directory exists and the format *named* -- by the URL,
+    by the flag only when the URL names none -- is a known one; and then it
+    runs on that format's reader.  Every other arm is an error outcome: no
+    fallback to the default reader for an unknown format. *)
+Theorem C06_check_dir_before_validate :
+  forall (parse_ok : bool) (scheme : bytes) (fmt : option bytes) (flag : bytes) (is_dir : bool) (t : tree) (v : tvres),
+  check_dir_url HS parse_ok scheme fmt flag is_dir t = PValidated v ->
+  parse_ok = true /\
+  ((scheme = s_mem /\ v = TV VOk) \/
+   (scheme = s_file /\ is_dir = true /\
+    exists f, parse_format (chosen_format fmt flag) = Some f /\ v = validate_tree HS f t)).
+Proof. exact (check_dir_validated HS). Qed.
+
+Theorem C06_check_dir_unknown_format_refused :
+  forall (x flag flag' : bytes) (is_dir : bool) (t : tree) (scheme : bytes),
+  (parse_format x = None -> check_dir_url HS true s_file (Some x) flag is_dir t = PErrOpen) /\
+  check_dir_url HS true scheme (Some x) flag is_dir t = check_dir_url HS true scheme (Some x) flag' is_dir t.
+Proof.
+  intros. split; [apply check_dir_unknown_format|apply check_dir_url_format_wins].
+Qed.
+
 End C06.
 
 (** What the decidable name predicates used above mean. *)
@@ -562,6 +634,11 @@ Print Assumptions C06_format_reads_spec.
 Print Assumptions C06_format_read_edit_changes.
 Print Assumptions C06_flyway_reads_only_candidates.
 Print Assumptions C06_files_from_last_checkpoint.
+Print Assumptions C06_reason_edited_ignored.
+Print Assumptions C06_reason_first_difference.
+Print Assumptions C06_reason_trailing_added.
+Print Assumptions C06_check_dir_before_validate.
+Print Assumptions C06_check_dir_unknown_format_refused.
 Print Assumptions C06_hash_shape_satisfiable.
 
 (** * Non-vacuity: concrete inputs meeting the hypotheses (toy hash) *)
@@ -735,3 +812,34 @@ Example ex_checkpoint :
   files_from_last_checkpoint is_ck fs = Some [(bs "4.sql", ck_c); (bs "5.sql", bs "C;")] /\
   files_from_last_checkpoint is_ck [(bs "1.sql", bs "A;")] = Some [(bs "1.sql", bs "A;")].
 Proof. vm_compute. repeat split; reflexivity. Qed.
+
+(* round 5: reasons with sum-ignored files and for a compound edit (toy hash) *)
+Example ex_reason_ignored :
+  (* ex_d = 1_a, 2_b (sum-ignored), 3_c: editing 3_c -> line 3 of 2 hashed files, after one sum line *)
+  hashed_names ex_d = [bs "1_a.sql"; bs "3_c.sql"] /\
+  validate toy_hs [(bs "1_a.sql", bs "CREATE TABLE a;" ++ [NL]); (bs "2_b.sql", ign_header ++ bs "X;" ++ [NL]); (bs "3_c.sql", bs "Z;" ++ [NL])] (ex_sum ex_d)
+    = VChecksum 3 2 (48 + 56) (bs "3_c.sql") Edited /\
+  (* compound edit of ex_p = 1_a, 3_c: 1_a kept, 2_x added, 3_c edited: the first differing line is 3_c's,
+     whose name is now at index 2, so the file at index 1 is reported as added *)
+  validate toy_hs [(bs "1_a.sql", bs "CREATE TABLE a;" ++ [NL]); (bs "2_x.sql", bs "N;"); (bs "3_c.sql", bs "Z;")] (ex_sum ex_p)
+    = VChecksum 3 2 (48 + 56) (bs "2_x.sql") Added /\
+  (* trailing hashed file added *)
+  validate toy_hs (ex_p ++ [(bs "4_d.sql", bs "D;")]) (ex_sum ex_p) = VChecksum 4 2 (48 + 56 + 56) (bs "4_d.sql") Added.
+Proof. vm_compute. repeat split; reflexivity. Qed.
+
+(* round 5: checkDir.  The golang-migrate tree hashed by golang-migrate validates under ?format=golang-migrate,
+   also when --dir-format says otherwise; is refused by Validate under the atlas reader; unknown format / scheme,
+   a parse error and a missing directory never reach Validate *)
+Example ex_check_dir :
+  let t := tree_put_sum ex_tree (marshal toy_hs (newhash toy_hs ex_gm)) in
+  check_dir_url toy_hs true s_file (Some s_golang_migrate) [] true t = PValidated (TV VOk) /\
+  check_dir_url toy_hs true s_file (Some s_golang_migrate) s_flyway true t = PValidated (TV VOk) /\
+  check_dir_url toy_hs true s_file None s_golang_migrate true t = PValidated (TV VOk) /\
+  (exists l tot p f r, check_dir_url toy_hs true s_file None [] true t = PValidated (TV (VChecksum l tot p f r))) /\
+  check_dir_url toy_hs true s_file (Some (bs "bogus")) s_golang_migrate true t = PErrOpen /\
+  check_dir_url toy_hs true (bs "ftp") None [] true t = PErrOpen /\
+  check_dir_url toy_hs true [] None [] true t = PErrOpen /\
+  check_dir_url toy_hs false s_file None [] true t = PErrParse /\
+  check_dir_url toy_hs true s_file None [] false t = PErrNotExist /\
+  check_dir_url toy_hs true s_mem None [] false t = PValidated (TV VOk).
+Proof. vm_compute. repeat split; try reflexivity. do 5 eexists. reflexivity. Qed.
